@@ -3,7 +3,8 @@
 (*                                                                                                  *)
 (* Pure definitions shared by the model (ModuleTree.tla), the generator and the trace spec:         *)
 (*   1. a PROGRAM is data: a tree of modules (numbered in pre-order = parent first, children in     *)
-(*      registration order), required/optional flags and the outcome of every onInit / onStart;     *)
+(*      registration order), required/optional flags and, per module, the result of the k-th call   *)
+(*      of its onInit / onStart (a non-empty sequence whose last element repeats);                  *)
 (*   2. the PROPERTY MONITOR: a fold over hook events that says which clause of the statement an     *)
 (*      event breaks (it never prescribes *which* rollback strategy an implementation uses);        *)
 (*   3. the positive OBLIGATIONS (all hooks called when nothing fails / only optional modules fail); *)
@@ -21,6 +22,9 @@ CONSTANT V          \* set of deviations of the reference semantics; {} = intend
                     \*   "skip_last"      initialize() forgets the last child
                     \*   "init_rev"       initialize() visits the children in reverse registration order
                     \*   "stop_nogate"    stop() is not gated on the state
+                    \*   "stale_disabled" an optional child whose initialize() failed is marked disabled (skipped by
+                    \*                    start/stop/cleanup) and the mark is never cleared
+                    \*   "dtor_kids_first" ~Module() deletes the children (last to first) before it calls cleanup()
 
 -----------------------------------------------------------------------------
 (* 1. programs *)
@@ -41,17 +45,23 @@ KidSeq(P, m) == SeqOf(Kids(P, m))
 WellFormed(P) ==
   /\ P.n >= 1 /\ Len(P.parent) = P.n /\ Len(P.req) = P.n /\ Len(P.iok) = P.n /\ Len(P.sok) = P.n
   /\ P.parent[1] = 0
+  /\ \A m \in 1..P.n : Len(P.iok[m]) >= 1 /\ Len(P.sok[m]) >= 1
   /\ \A m \in 2..P.n : P.parent[m] \in 1..(m - 1) /\ P.parent[m] \in AncSelf(P, m - 1)
 
 NoProg == [n |-> 0, parent |-> <<>>, req |-> <<>>, iok |-> <<>>, sok |-> <<>>, lst |-> <<>>]
 
-\* "effective" failure of a module = its own hook fails or a required child fails effectively
+\* result of the k-th call (k >= 1) of a hook whose plan is the non-empty sequence q
+Outcome(q, k) == q[IF k <= Len(q) THEN k ELSE Len(q)]
+Varies(q) == \E i \in 1..Len(q) : q[i] # q[1]
+
+\* "effective" failure of a module in the FIRST round (first call of every hook) = its own hook fails or a required
+\* child fails effectively
 RECURSIVE EffIF(_, _), EffSF(_, _)
-EffIF(P, m) == ~P.iok[m] \/ \E c \in Kids(P, m) : P.req[c] /\ EffIF(P, c)
+EffIF(P, m) == ~P.iok[m][1] \/ \E c \in Kids(P, m) : P.req[c] /\ EffIF(P, c)
 OkI(P) == {m \in Mods(P) : \A a \in AncSelf(P, m) : ~EffIF(P, a)}        \* must be initialised by the first initialize()
-EffSF(P, m) == ~P.sok[m] \/ \E c \in Kids(P, m) : c \in OkI(P) /\ P.req[c] /\ EffSF(P, c)
+EffSF(P, m) == ~P.sok[m][1] \/ \E c \in Kids(P, m) : c \in OkI(P) /\ P.req[c] /\ EffSF(P, c)
 OkS(P) == {m \in OkI(P) : \A a \in AncSelf(P, m) : ~EffSF(P, a)}         \* must be running after the first start()
-NoFailure(P) == \A m \in Mods(P) : P.iok[m] /\ P.sok[m]
+NoFailure(P) == \A m \in Mods(P) : P.iok[m][1] /\ P.sok[m][1]
 
 -----------------------------------------------------------------------------
 (* 2. the monitor.  Hook event = [h |-> "I" | "S" | "T" | "C", m |-> module, r |-> result]            *)
@@ -126,80 +136,110 @@ Judge(P, s0, ph, op, ret, hk) ==
   IN [s EXCEPT !.bad = b]
 
 -----------------------------------------------------------------------------
-(* 4. reference semantics of modules/main/module.cpp.  st[m] \in {"N","I","R"} is Module::state_.      *)
-(*    Results are records [st, hk] (+ ok).  own = FALSE models the call made from ~Module(): the        *)
-(*    hooks of the object being destroyed dispatch to the empty base versions, i.e. are not delivered.  *)
+(* 4. reference semantics of modules/main/module.cpp.  The implementation state st is a record         *)
+(*    [s, ic, sc]: s[m] \in {"N","I","R"} is Module::state_, ic[m]/sc[m] count the calls of onInit/     *)
+(*    onStart of m so far (capped at 1, and only for modules whose plan varies - the k-th result of a   *)
+(*    two-element plan only depends on "first call or not").  Results are records [st, hk] (+ ok).      *)
+(*    own = FALSE models the call made from ~Module(): the hooks of the object being destroyed          *)
+(*    dispatch to the empty base versions, i.e. are not delivered.                                      *)
 RECURSIVE DoStop(_, _, _, _), StopKids(_, _, _, _), DoCleanup(_, _, _, _), CleanupKids(_, _, _, _),
           DoInit(_, _, _), InitKids(_, _, _, _, _), DoStart(_, _, _), StartKids(_, _, _, _, _),
-          DoDtor(_, _, _), DtorKids(_, _, _, _)
+          DoDtor(_, _, _), DtorKids(_, _, _, _), DtorKidsRev(_, _, _, _)
 
+StInit(P) == [s |-> [m \in Mods(P) |-> "N"], ic |-> [m \in Mods(P) |-> 0], sc |-> [m \in Mods(P) |-> 0],
+              dis |-> [m \in Mods(P) |-> FALSE]]           \* dis: only used by the "stale_disabled" deviation
+Skip(st) == [st |-> st, hk |-> <<>>]
 Own(own, h, m) == IF own THEN <<H(h, m, TRUE)>> ELSE <<>>
+Bump(q, c) == IF Varies(q) THEN 1 ELSE c
 
 \* stop kids ks[i], ks[i-1], ..., ks[1]  (or ks[j..] forward under "stopfwd": i counts how many are left)
 StopKids(P, r, ks, i) ==
   IF i = 0 THEN r
   ELSE LET k == IF "stopfwd" \in V THEN ks[Len(ks) - i + 1] ELSE ks[i]
-           q == DoStop(P, r.st, k, TRUE)
+           q == IF r.st.dis[k] THEN Skip(r.st) ELSE DoStop(P, r.st, k, TRUE)
        IN StopKids(P, [st |-> q.st, hk |-> r.hk \o q.hk], ks, i - 1)
 DoStop(P, st, m, own) ==
-  IF st[m] # "R" /\ "stop_nogate" \notin V THEN [st |-> st, hk |-> <<>>]
+  IF st.s[m] # "R" /\ "stop_nogate" \notin V THEN [st |-> st, hk |-> <<>>]
   ELSE LET ks == KidSeq(P, m)
            r == StopKids(P, [st |-> st, hk |-> <<>>], ks, Len(ks))
-       IN [st |-> [r.st EXCEPT ![m] = "I"], hk |-> r.hk \o Own(own, "T", m)]
+       IN [st |-> [r.st EXCEPT !.s[m] = "I"], hk |-> r.hk \o Own(own, "T", m)]
 
 CleanupKids(P, r, ks, i) ==
   IF i = 0 THEN r
-  ELSE LET q == DoCleanup(P, r.st, ks[i], TRUE)
+  ELSE LET q == IF r.st.dis[ks[i]] THEN Skip(r.st) ELSE DoCleanup(P, r.st, ks[i], TRUE)
        IN CleanupKids(P, [st |-> q.st, hk |-> r.hk \o q.hk], ks, i - 1)
 DoCleanup(P, st, m, own) ==
-  IF st[m] = "N" THEN [st |-> st, hk |-> <<>>]
+  IF st.s[m] = "N" THEN [st |-> st, hk |-> <<>>]
   ELSE LET a == IF "cleanup_nostop" \in V THEN [st |-> st, hk |-> <<>>] ELSE DoStop(P, st, m, own)
            ks == KidSeq(P, m)
            r == CleanupKids(P, a, ks, Len(ks))
-       IN [st |-> [r.st EXCEPT ![m] = "N"], hk |-> r.hk \o Own(own, "C", m)]
+       IN [st |-> [r.st EXCEPT !.s[m] = "N"], hk |-> r.hk \o Own(own, "C", m)]
 
 InitKids(P, r, m, ks, i) ==
   IF i > Len(ks) \/ ("skip_last" \in V /\ i = Len(ks) /\ i > 1) THEN r
   ELSE LET q == DoInit(P, r.st, IF "init_rev" \in V THEN ks[Len(ks) - i + 1] ELSE ks[i])
            r2 == [st |-> q.st, hk |-> r.hk \o q.hk, ok |-> TRUE]
-       IN IF q.ok \/ (~P.req[ks[i]] /\ "opt_abort" \notin V) THEN InitKids(P, r2, m, ks, i + 1)
+           r3 == IF ~q.ok /\ "stale_disabled" \in V THEN [r2 EXCEPT !.st.dis[ks[i]] = TRUE] ELSE r2
+       IN IF q.ok \/ (~P.req[ks[i]] /\ "opt_abort" \notin V) THEN InitKids(P, r3, m, ks, i + 1)
           ELSE IF "norollback" \in V THEN [r2 EXCEPT !.ok = FALSE]
           ELSE \* roll back: the children initialised so far in reverse order, then this module
                LET c == CleanupKids(P, [st |-> r2.st, hk |-> r2.hk], ks, i - 1)
                IN [st |-> c.st, hk |-> c.hk \o <<H("C", m, TRUE)>>, ok |-> FALSE]
 DoInit(P, st, m) ==
-  IF st[m] # "N" THEN [st |-> st, hk |-> <<>>, ok |-> FALSE]
-  ELSE IF ~P.iok[m] THEN [st |-> st, hk |-> <<H("I", m, FALSE)>>, ok |-> FALSE]
-  ELSE LET r == InitKids(P, [st |-> st, hk |-> <<H("I", m, TRUE)>>, ok |-> TRUE], m, KidSeq(P, m), 1)
-       IN IF r.ok THEN [r EXCEPT !.st[m] = "I"] ELSE r
+  IF st.s[m] # "N" THEN [st |-> st, hk |-> <<>>, ok |-> FALSE]
+  ELSE LET res == Outcome(P.iok[m], st.ic[m] + 1)
+           st1 == [st EXCEPT !.ic[m] = Bump(P.iok[m], @)]
+       IN IF ~res THEN [st |-> st1, hk |-> <<H("I", m, FALSE)>>, ok |-> FALSE]
+          ELSE LET r == InitKids(P, [st |-> st1, hk |-> <<H("I", m, TRUE)>>, ok |-> TRUE], m, KidSeq(P, m), 1)
+               IN IF r.ok THEN [r EXCEPT !.st.s[m] = "I"] ELSE r
 
 StartKids(P, r, m, ks, i) ==
   IF i > Len(ks) THEN r
-  ELSE LET q == DoStart(P, r.st, ks[i])
+  ELSE LET q == IF r.st.dis[ks[i]] THEN [st |-> r.st, hk |-> <<>>, ok |-> TRUE] ELSE DoStart(P, r.st, ks[i])
            r2 == [st |-> q.st, hk |-> r.hk \o q.hk, ok |-> TRUE]
        IN IF q.ok \/ (~P.req[ks[i]] /\ "opt_abort" \notin V) THEN StartKids(P, r2, m, ks, i + 1)
           ELSE IF "norollback" \in V THEN [r2 EXCEPT !.ok = FALSE]
           ELSE LET c == StopKids(P, [st |-> r2.st, hk |-> r2.hk], SubSeq(ks, 1, i - 1), i - 1)
                IN [st |-> c.st, hk |-> c.hk \o <<H("T", m, TRUE)>>, ok |-> FALSE]
 DoStart(P, st, m) ==
-  IF st[m] # "I" /\ "start_nogate" \notin V THEN [st |-> st, hk |-> <<>>, ok |-> FALSE]
-  ELSE IF ~P.sok[m] THEN [st |-> st, hk |-> <<H("S", m, FALSE)>>, ok |-> FALSE]
-  ELSE LET r == StartKids(P, [st |-> st, hk |-> <<H("S", m, TRUE)>>, ok |-> TRUE], m, KidSeq(P, m), 1)
-       IN IF r.ok THEN [r EXCEPT !.st[m] = "R"] ELSE r
+  IF st.s[m] # "I" /\ "start_nogate" \notin V THEN [st |-> st, hk |-> <<>>, ok |-> FALSE]
+  ELSE LET res == Outcome(P.sok[m], st.sc[m] + 1)
+           st1 == [st EXCEPT !.sc[m] = Bump(P.sok[m], @)]
+       IN IF ~res THEN [st |-> st1, hk |-> <<H("S", m, FALSE)>>, ok |-> FALSE]
+          ELSE LET r == StartKids(P, [st |-> st1, hk |-> <<H("S", m, TRUE)>>, ok |-> TRUE], m, KidSeq(P, m), 1)
+               IN IF r.ok THEN [r EXCEPT !.st.s[m] = "R"] ELSE r
 
-\* ~Module(): cleanup() whose own hooks are not delivered, then the children are deleted in order
+\* ~Module(): cleanup() whose own hooks are not delivered - the children are still alive, so THEIR hooks are -
+\* then the children are deleted in registration order.  ("dtor_kids_first": children deleted first, last to first;
+\* by then each child's derived part is gone when its ~Module() cleans up, so nothing below reaches an override.)
 DtorKids(P, r, ks, i) ==
   IF i > Len(ks) THEN r
   ELSE LET q == DoDtor(P, r.st, ks[i]) IN DtorKids(P, [st |-> q.st, hk |-> r.hk \o q.hk], ks, i + 1)
+DtorKidsRev(P, r, ks, i) ==
+  IF i = 0 THEN r
+  ELSE LET q == DoDtor(P, r.st, ks[i]) IN DtorKidsRev(P, [st |-> q.st, hk |-> r.hk \o q.hk], ks, i - 1)
 DoDtor(P, st, m) ==
-  LET a == DoCleanup(P, st, m, FALSE) IN DtorKids(P, a, KidSeq(P, m), 1)
+  IF "dtor_kids_first" \in V
+    THEN LET ks == KidSeq(P, m)
+             k == DtorKidsRev(P, [st |-> st, hk |-> <<>>], ks, Len(ks))
+             \* the children are gone: cleanup() of m finds no child and its own hooks are not delivered
+         IN [st |-> [k.st EXCEPT !.s[m] = "N"], hk |-> k.hk]
+    ELSE LET a == DoCleanup(P, st, m, FALSE) IN DtorKids(P, a, KidSeq(P, m), 1)
 
 Ops == {"initialize", "start", "stop", "cleanup"}
-\* one call on the root: [st, hk, ret]
+\* one call on the root: [st, hk, ret].  "destroy" deletes a plain Module("") that owns module 1 (as `apps` in Main()
+\* owns the user's modules): its ~Module() runs cleanup() - which reaches module 1 and everything below through the
+\* overrides, gated like module 1's own cleanup() - and then deletes module 1.  Destroying module 1 directly differs
+\* only in that module 1's own onStop/onCleanup cannot be delivered (C++), which is why the harness never does that
+\* to a tree that is not cleaned up.
 RootCall(P, st, op) ==
   CASE op = "initialize" -> LET r == DoInit(P, st, 1) IN [st |-> r.st, hk |-> r.hk, ret |-> r.ok]
     [] op = "start"      -> LET r == DoStart(P, st, 1) IN [st |-> r.st, hk |-> r.hk, ret |-> r.ok]
     [] op = "stop"       -> LET r == DoStop(P, st, 1, TRUE) IN [st |-> r.st, hk |-> r.hk, ret |-> TRUE]
     [] op = "cleanup"    -> LET r == DoCleanup(P, st, 1, TRUE) IN [st |-> r.st, hk |-> r.hk, ret |-> TRUE]
-    [] op = "destroy"    -> LET r == DoDtor(P, st, 1) IN [st |-> r.st, hk |-> r.hk, ret |-> TRUE]
+    [] op = "destroy"    -> IF "dtor_kids_first" \in V
+                              THEN LET r == DoDtor(P, st, 1) IN [st |-> r.st, hk |-> r.hk, ret |-> TRUE]
+                              ELSE LET a == DoCleanup(P, st, 1, TRUE)
+                                       r == DoDtor(P, a.st, 1)
+                                   IN [st |-> r.st, hk |-> a.hk \o r.hk, ret |-> TRUE]
 =============================================================================
